@@ -112,7 +112,7 @@ CLAIMS = {
         "exp(-i A(x)B) exactly (projector-splitting exactness for a rank-one generator inside the window) and the Krylov accuracy are "
         "not mechanised; they are covered by the search, which compares simulator.run(get_state=True) with Qiskit's Operator on random "
         "circuits over the full gate set, both orientations, all built-in initial states: amplitudes up to global phase and all one- and "
-        "adjacent two-site Pauli expectation values. Extended: theorem that contracting a one-site operator with a site tensor acts exactly on every amplitude (any ring, any chain); operator-identity tie per executed two-qubit gate (exp(-i generator) handed to the windowed TDVP = that gate's unitary incl. qubit order); repetition families, deep 8/9-qubit circuits, shuffled observable listings. Products of two different Paulis among the observables.",
+        "adjacent two-site Pauli expectation values. Extended: theorem that contracting a one-site operator with a site tensor acts exactly on every amplitude (any ring, any chain); operator-identity tie per executed two-qubit gate (exp(-i generator) handed to the windowed TDVP = that gate's unitary incl. qubit order); repetition families, deep 8/9-qubit circuits, shuffled observable listings. Products of two different Paulis among the observables. Parameter objects that served a noisy multi-trajectory run before the noise-free run.",
         COMMON_NOTE + "Axioms: closed under the global context for the scheduling theorems; the real-number axioms for the C18 part.",
         "DESIGN.md §3 C02"),
     "C11": (
@@ -221,7 +221,7 @@ CLAIMS = {
         "recording identity kernels on random bond patterns and caps. PARTIAL: exactness of the local Krylov steps (C19), truncation "
         "error (C09), second order of the symmetric splitting / first order of BUG are not mechanised; the search checks norm and "
         "energy drift and the error against the dense exp(-iHt) at dt and dt/2 (ratio test above the noise floor) and the agreement "
-        "of the two integrator orders. Extended: step_ops (which operator tensors a step works with) with theorem and operator-identity trace incl. an MPO object rebuilt in place; wide 8-site chains (matrix-free local steps). BUG step list (bug.bug) modelled and traced: every site forward by one dt once, own operator tensor and environment blocks, truncation last. One-site integrator model (SingleSite.v); mirrored sweeps second-order (Strang.v).",
+        "of the two integrator orders. Extended: step_ops (which operator tensors a step works with) with theorem and operator-identity trace incl. an MPO object rebuilt in place; wide 8-site chains (matrix-free local steps). BUG step list (bug.bug) modelled and traced: every site forward by one dt once, own operator tensor and environment blocks, truncation last. One-site integrator model (SingleSite.v); mirrored sweeps second-order (Strang.v). Eight-level Bose-Hubbard chain with nothing cut (local blocks of 4096 entries: compiled Krylov path) vs exp(-iHT).",
         COMMON_NOTE,
         "DESIGN.md §3 C05"),
     "C19": (
